@@ -1,5 +1,6 @@
 // govc:pkg stream
 // govc:bound partition value tuples of arity 1..2 over a pool of 31 typed values (strings with '|' / ':' / digits look-alikes and imitations of the inter-column framing, ints, int64, floats incl. 16777216/16777217 and 0.1/0.10000000001, bools, NULL); all pairs compared
+// govc:also C12
 // Bounded stand-in (NOT a proof): the typed, length-prefixed partition key of analytic functions is the same for two
 // rows iff their PARTITION BY values are identical (same Go type and value).
 package stream
